@@ -30,7 +30,8 @@ pub fn run_histories(aspects_oneshot: i64, aspects_inc: i64, fixtures_too: bool)
 		};
 		if aspects_oneshot != 0 {
 			let mut p = P { class, ..Default::default() };
-			p.n[0] = aspects_oneshot;
+			// the trip through .slpp (where asked for) is made for the histories with at most one deviation
+			p.n[0] = if dev <= 1 { aspects_oneshot } else { aspects_oneshot & !A_VIA_SLPP };
 			eval_case("model", o_model, &bytes, &p, || abs.describe(), local);
 		}
 		if aspects_inc != 0 {
